@@ -11,6 +11,17 @@
 //! scaled by 2^+-40 f32 / 2^+-400 f64, where the exact tier goes blind as soon as a rewrite leaves
 //! the modelled operations); special, tiny and large float angles; float chained / in-place forms
 //! and quaternion x/y/z builders; Vec2 at extreme magnitudes.
+//!
+//! Second audit round (sections 15-19), aimed at value-dependent shortcuts and at rewrites that only
+//! lose accuracy next to special values: exact angles next to 0 / a quarter turn / a half turn
+//! (2^-30 .. 2^-19 away); nearly-unit axes (|axis| = 1 +- 2^-55 .. 2^-12) and nearly-coordinate axes
+//! (one component about 2^-26) in the exact tier; further self states of the chained / in-place forms
+//! (m33 = 1 without an affine bottom row, last column e_w, sheared affine, diagonal, singular, zero;
+//! non-unit quaternions, w = 0, w = 1) with a twin-vs-value differential on every state; float tier
+//! with an ENTRYWISE forward bound derived from the formula (the sine entries are compared relative
+//! to |sin|, quaternion fields relative to themselves) over angle ladders c0 +- 2^-j next to every
+//! multiple of pi/2 up to 2 pi, angles below epsilon, nearly-unit / nearly-coordinate axes and axes
+//! whose squared length is just inside the normal range.
 use vek::Quaternion;
 use vx::matx::*;
 use vx::q::angle_base_t;
@@ -825,6 +836,324 @@ macro_rules! float_ext { ($s:expr, $T:ty, $big:expr, $mid:expr, $huge:expr, $vbi
     }
 }} }
 
+// ==== additions of the second audit round (sections 15-19) ==========================================
+// Slip categories closed here: value-dependent shortcuts (guards on tiny angles, on angles next to a
+// quarter/half/full turn, on nearly-unit axes, on a homogeneous entry m33 = 1, on a quaternion with
+// w = 1 or w = 0), numerically different rewrites that only lose accuracy next to such values
+// (half angle through sin/(1+cos), cos through sqrt(1-sin^2)), in-place twins on states where a
+// separate implementation shows (non-unit quaternions, projective / singular / diagonal matrices).
+
+fn near_json(a: Ang) -> Value { json!({"theta": format!("{}*arg(z), z = rational circle point with parameter t={}/{}", a.k, a.tn, a.td), "radians~": a.real()}) }
+
+/// builders, chained and in-place forms at angles next to 0, a quarter turn and a half turn (exact)
+fn sec_near<const N: usize, M: RotM<X, N>>(s: &Section, angs: &[(Ang, &'static str)], axes: &[Axis], m: &A<X, N>) {
+    let real_m = M::build(m);
+    for &(a, cls) in angs {
+        let (c, sn) = a.cs(); let th = a.tok();
+        for kind in 0..(3 + axes.len()) {
+            let (unit, given, name) = if kind < 3 { (e3(kind), e3(kind), XYZ[kind].to_string()) } else { (axes[kind - 3].unit, axes[kind - 3].given(), "3d".to_string()) };
+            let inp = || json!({"angle": near_json(a), "axis": jxs(&given), "self": jmat(m)});
+            s.eval(true); s.class(cls);
+            let Some((rot, pre)) = s.call("reference product", inp, || { let r: A<X, N> = embed::<X, 3, N>(&rodrigues(&unit, c, sn)); (r, mmul(&r, m)) }) else { continue };
+            let site = format!("{}::rotation_{}", M::NAME, name);
+            let r = s.call(&site, inp, || {
+                let mut ip = real_m;
+                if kind < 3 { ip.t_rotate(kind, th); (M::t_rot(kind, th).decode(), real_m.t_rotated(kind, th).decode(), ip.decode()) }
+                else { ip.t_rotate3d(th, given); (M::t_rot3d(th, given).decode(), real_m.t_rotated3d(th, given).decode(), ip.decode()) }
+            });
+            if let Some((g, ret, ip)) = r {
+                if g != rot { s.violation_w(&site, "not-rodrigues-next-to-a-special-angle", json!({"input": inp(), "got": jmat(&g), "want": jmat(&rot)}), 1); }
+                if ret != pre { s.violation_w(&format!("{}::rotated_{}", M::NAME, name), "not-rotation-times-self-next-to-a-special-angle", json!({"input": inp(), "got": jmat(&ret), "want": jmat(&pre)}), 1); }
+                if ip != ret { s.violation_w(&format!("{}::rotate_{}", M::NAME, name), "in-place-form-differs-next-to-a-special-angle", json!({"input": inp(), "rotate": jmat(&ip), "rotated": jmat(&ret)}), 1); }
+                if kind == 3 && N == 3 && s.wants_sample() { s.sample(json!({"call": site, "input": inp(), "real_output": jmat(&g)})); }
+            }
+        }
+    }
+}
+fn sec_near2<M: RotM2<X>>(s: &Section, angs: &[(Ang, &'static str)], m: &A<X, 2>) {
+    let real_m = M::build(m);
+    for &(a, cls) in angs {
+        let (c, sn) = a.cs(); let th = a.tok();
+        let rot: A<X, 2> = [[c, -sn], [sn, c]]; let pre = mmul(&rot, m);
+        let inp = || json!({"angle": near_json(a), "self": jmat(m)});
+        s.eval(true); s.class(cls);
+        let site = format!("{}::rotation_z", M::NAME);
+        if let Some((g, ret, ip)) = s.call(&site, inp, || { let mut ip = real_m; ip.t_rotate_z(th); (M::t_rot_z(th).decode(), real_m.t_rotated_z(th).decode(), ip.decode()) }) {
+            if g != rot { s.violation_w(&site, "not-rodrigues-next-to-a-special-angle", json!({"input": inp(), "got": jmat(&g), "want": jmat(&rot)}), 1); }
+            if ret != pre { s.violation_w(&format!("{}::rotated_z", M::NAME), "not-rotation-times-self-next-to-a-special-angle", json!({"input": inp(), "got": jmat(&ret), "want": jmat(&pre)}), 1); }
+            if ip != ret { s.violation_w(&format!("{}::rotate_z", M::NAME), "in-place-form-differs-next-to-a-special-angle", json!({"input": inp(), "rotate": jmat(&ip), "rotated": jmat(&ret)}), 1); }
+        }
+    }
+}
+
+/// rotation_3d, rotated_3d, rotate_3d, Mat::from(Quaternion::rotation_3d) for axes of length 1 +- 2^-j (exact)
+fn sec_nearly_unit<const N: usize, M: RotM<X, N>>(s: &Section, units: &[Axis], lams: &[(X, &'static str)], angs: &[Ang], m: &A<X, N>) {
+    let real_m = M::build(m);
+    let site = format!("{}::rotation_3d", M::NAME);
+    for ax0 in units { for &(lam, cls) in lams { let ax = Axis { unit: ax0.unit, lam }; let given = ax.given(); for &a in angs {
+        let (c, sn) = a.cs(); let th = a.tok();
+        let inp = || json!({"angle": a.json(), "axis": ax.json(), "self": jmat(m)});
+        let w = a.weight() + ax0.weight();
+        s.eval(!a.trivial()); s.class(cls);
+        let Some((rot, pre)) = s.call("reference product", inp, || { let r: A<X, N> = embed::<X, 3, N>(&rodrigues(&ax.unit, c, sn)); (r, mmul(&r, m)) }) else { continue };
+        let r = s.call(&site, inp, || { let mut ip = real_m; ip.t_rotate3d(th, given); (M::t_rot3d(th, given).decode(), real_m.t_rotated3d(th, given).decode(), ip.decode(), M::t_from_quat(Quaternion::rotation_3d(th, v3(&given))).decode()) });
+        if let Some((g, ret, ip, viaq)) = r {
+            if g != rot { s.violation_w(&site, "not-rodrigues-at-nearly-unit-axis-length", json!({"input": inp(), "got": jmat(&g), "want": jmat(&rot)}), w); }
+            if ret != pre { s.violation_w(&format!("{}::rotated_3d", M::NAME), "not-rotation-times-self-at-nearly-unit-axis-length", json!({"input": inp(), "got": jmat(&ret), "want": jmat(&pre)}), w); }
+            if ip != ret { s.violation_w(&format!("{}::rotate_3d", M::NAME), "in-place-form-differs-at-nearly-unit-axis-length", json!({"input": inp(), "rotate": jmat(&ip), "rotated": jmat(&ret)}), w); }
+            if viaq != rot { s.violation_w(&format!("{}::from(Quaternion::rotation_3d)", M::NAME), "not-rodrigues-at-nearly-unit-axis-length", json!({"input": inp(), "got": jmat(&viaq), "want": jmat(&rot)}), w); }
+            if N == 4 && !a.trivial() && !ax.coordinate() && s.wants_sample() { s.sample(json!({"call": site, "input": inp(), "real_output": jmat(&g)})); }
+        }
+    } } }
+}
+
+/// a and b are the same point of projective space (b != 0): a = mu * b for some scalar mu != 0
+fn proportional(a: &[X; 4], b: &[X; 4]) -> bool {
+    if a.iter().all(|v| *v == qi(0)) { return false; }
+    for i in 0..4 { for j in (i + 1)..4 { if a[i] * b[j] != a[j] * b[i] { return false; } } }
+    true
+}
+fn ham_f(p: &[f64; 4], q: &[f64; 4]) -> [f64; 4] {
+    let (pv, qv) = ([p[0], p[1], p[2]], [q[0], q[1], q[2]]);
+    let c = cross3(&pv, &qv);
+    [p[3] * q[0] + q[3] * p[0] + c[0], p[3] * q[1] + q[3] * p[1] + c[1], p[3] * q[2] + q[3] * p[2] + c[2], p[3] * q[3] - dotn(&pv, &qv)]
+}
+
+// ---- float tier: entrywise forward bounds derived from the formula ---------------------------------
+trait FlEps: Fl { const EPS: f64; }
+impl FlEps for f64 { const EPS: f64 = f64::EPSILON; }
+impl FlEps for f32 { const EPS: f64 = f32::EPSILON as f64; }
+/// Entry (i,j), i != j, of a rotation about the unit axis k is k_i k_j (1-cos) -+ k_m sin.  With u = eps/2: every component of the
+/// normalised axis carries <= 3.5u relative error (three products and two additions under a square root, one division), sin/cos <= 2u,
+/// 1-cos an absolute error <= 3u; so the first term carries <= 21u |k_i k_j| and the second <= 7.5u |k_m sin|, the final addition <= u of
+/// their sum: |error| <= 11 eps |k_i k_j| + 4 eps |k_m sin| (the quaternion path 2xy -+ 2zw stays below the same bound).  The f64 oracle has
+/// the same bound, hence KS = 32 >= 2 * 11.  Diagonal entries: <= 8 eps each side, scale 1.  Entries that are structurally 0 or 1 (the
+/// border of a Mat4; k_i k_j = 0 and k_m sin = 0) are exact by construction (0*t = 0, 0 +- 0 = 0) and are compared with ==.
+const KS: f64 = 32.0;
+/// quaternion fields (k sin(theta/2), cos(theta/2)): 3.5u (axis component) + 2u (sin) + u (product) = 3.25 eps relative per field and side
+const KQ: f64 = 16.0;
+/// Vec2: c x - s y with c, s within 2u and three roundings: <= 2 eps (|c x| + |s y|) per side
+const KV: f64 = 8.0;
+const C_STRUCT: &str = "outside-the-entrywise-forward-error-bound";
+fn fstruct<T: FlEps, const N: usize>(s: &Section, site: &str, got: &A<T, N>, k: &[f64; 3], c: f64, sn: f64, colscale: &[f64; N], inp: &dyn Fn() -> Value) {
+    s.eval(true);
+    let want3 = rodrigues_f(k, c, sn);
+    let nb = if N == 2 { 2 } else { 3 };
+    let mut bad: Option<(usize, usize, f64, f64, f64)> = None;
+    for i in 0..N { for j in 0..N {
+        let g = got[i][j].d();
+        let (w, tol) = if i < nb && j < nb {
+            if i == j { (want3[i][j] * colscale[j], KS * T::EPS * colscale[j].abs()) } else { let m = 3 - i - j; (want3[i][j] * colscale[j], KS * T::EPS * ((k[i] * k[j]).abs() + (k[m] * sn).abs()) * colscale[j].abs()) }
+        } else { (if i == j { colscale[j] } else { 0.0 }, 0.0) };
+        if !((g - w).abs() <= tol) && bad.is_none() { bad = Some((i, j, g, w, tol)); }
+    } }
+    if let Some((i, j, g, w, tol)) = bad { s.violation(&format!("{}<{}>", site, T::NAME), C_STRUCT, json!({"input": inp(), "entry": [i, j], "got": g, "want": w, "allowed_error": tol, "got_matrix": dmat(got)})); }
+}
+fn fquat_rel<T: FlEps>(s: &Section, site: &str, g: [T; 4], half: f64, k: &[f64; 3], inp: &dyn Fn() -> Value) {
+    s.eval(true);
+    let (sh, ch) = (half.sin(), half.cos());
+    let want = [k[0] * sh, k[1] * sh, k[2] * sh, ch];
+    let im = (0..4).fold(0, |b, i| if want[i].abs() > want[b].abs() { i } else { b });
+    let sg = if (g[im].d() < 0.0) != (want[im] < 0.0) { -1.0 } else { 1.0 };
+    if !(0..4).all(|i| (g[i].d() - sg * want[i]).abs() <= KQ * T::EPS * want[i].abs()) { s.violation(&format!("{}<{}>", site, T::NAME), "fields-outside-the-relative-forward-error-bound", json!({"input": inp(), "got_xyzw": g.iter().map(|v| v.d()).collect::<Vec<_>>(), "want_xyzw_up_to_sign": want, "allowed_relative_error": KQ * T::EPS})); }
+}
+fn fvec2<T: FlEps>(s: &Section, site: &str, got: [T; 2], v: &[f64; 2], c: f64, sn: f64, inp: &dyn Fn() -> Value) {
+    s.eval(true);
+    let want = [c * v[0] - sn * v[1], sn * v[0] + c * v[1]];
+    let tol = [KV * T::EPS * ((c * v[0]).abs() + (sn * v[1]).abs()), KV * T::EPS * ((sn * v[0]).abs() + (c * v[1]).abs())];
+    if !((got[0].d() - want[0]).abs() <= tol[0]) || !((got[1].d() - want[1]).abs() <= tol[1]) { s.violation(&format!("{}<{}>", site, T::NAME), "outside-the-componentwise-forward-error-bound", json!({"input": inp(), "got": [got[0].d(), got[1].d()], "want": want, "allowed_error": tol})); }
+}
+/// builders of one matrix type: rotation_3d and from(Quaternion::rotation_3d) against the structured bound
+fn fs_3d<T: FlEps, const N: usize, M: RotM<T, N>>(s: &Section, af: T, c: f64, sn: f64, axf: [T; 3], k: &[f64; 3], inp: &dyn Fn() -> Value) where Quaternion<T>: FQ<T> {
+    let one = [1.0f64; N];
+    fstruct::<T, N>(s, &format!("{}::rotation_3d", M::NAME), &M::t_rot3d(af, axf).decode(), k, c, sn, &one, inp);
+    fstruct::<T, N>(s, &format!("{}::from(Quaternion::rotation_3d)", M::NAME), &M::t_from_quat(<Quaternion<T> as FQ<T>>::rot3d(af, axf)).decode(), k, c, sn, &one, inp);
+}
+/// rotation_x/y/z, from(Quaternion::rotation_x/y/z), and the chained / in-place forms on a diagonal self (each entry of the product is a
+/// single product R_ij d_j, so the structured bound carries over, scaled by |d_j|)
+fn fs_xyz<T: FlEps, const N: usize, M: RotM<T, N>>(s: &Section, af: T, c: f64, sn: f64, axf: [T; 3], kax: &[f64; 3], diag: &[f64; N], inp: &dyn Fn() -> Value) where Quaternion<T>: FQ2<T> {
+    let one = [1.0f64; N];
+    let mut d: A<T, N> = [[T::f(0.0); N]; N]; for i in 0..N { d[i][i] = T::f(diag[i]); }
+    let real_d = M::build(&d);
+    for i in 0..3 {
+        let mut e = [0.0; 3]; e[i] = 1.0;
+        fstruct::<T, N>(s, &format!("{}::rotation_{}", M::NAME, XYZ[i]), &M::t_rot(i, af).decode(), &e, c, sn, &one, inp);
+        fstruct::<T, N>(s, &format!("{}::from(Quaternion::rotation_{})", M::NAME, XYZ[i]), &M::t_from_quat(<Quaternion<T> as FQ2<T>>::q_axis(i, af)).decode(), &e, c, sn, &one, inp);
+        let mut ip = real_d; ip.t_rotate(i, af);
+        fstruct::<T, N>(s, &format!("{}::rotated_{}(self: diagonal)", M::NAME, XYZ[i]), &real_d.t_rotated(i, af).decode(), &e, c, sn, diag, inp);
+        fstruct::<T, N>(s, &format!("{}::rotate_{}(self: diagonal)", M::NAME, XYZ[i]), &ip.decode(), &e, c, sn, diag, inp);
+    }
+    let mut ip = real_d; ip.t_rotate3d(af, axf);
+    fstruct::<T, N>(s, &format!("{}::rotated_3d(self: diagonal)", M::NAME), &real_d.t_rotated3d(af, axf).decode(), kax, c, sn, diag, inp);
+    fstruct::<T, N>(s, &format!("{}::rotate_3d(self: diagonal)", M::NAME), &ip.decode(), kax, c, sn, diag, inp);
+}
+
+macro_rules! float_ext2 { ($s:expr, $T:ty, $jmax:expr, $tiny:expr, $lim:expr) => {{
+    let s: &Section = $s;
+    let th = s.thorough();
+    type T = $T;
+    let f = |v: f64| <T as Fl>::f(v);
+    s.require_classes(&["angle-next-to-0", "angle-next-to-quarter-turn", "angle-next-to-half-turn", "angle-next-to-three-quarter-turn", "angle-next-to-full-turn", "angle-below-epsilon", "axis-nearly-unit", "axis-nearly-coordinate", "axis-at-range-limit", "self-m33=1-not-affine", "quaternion-self-non-unit", "quaternion-self-w=0", "quaternion-self-w=1-non-unit"]);
+    let pi = std::f64::consts::PI;
+    // ---- (e) angle ladders next to the special angles --------------------------------------------------
+    let js: Vec<i32> = if th { (1..=$jmax).collect() } else { [2, 5, 9, 14, 18, 22, 26, 30, 35, 40, 45, 49, 51].iter().copied().filter(|j| *j <= $jmax).collect() };
+    let mut angs: Vec<(f64, &'static str)> = Vec::new();
+    for (ctr, cls) in [(0.0, "angle-next-to-0"), (pi / 2.0, "angle-next-to-quarter-turn"), (pi, "angle-next-to-half-turn"), (1.5 * pi, "angle-next-to-three-quarter-turn"), (2.0 * pi, "angle-next-to-full-turn")] {
+        for sg in [1.0, -1.0] {
+            let c0 = f(sg * ctr).d();
+            if ctr != 0.0 { angs.push((c0, cls)); angs.push((c0 * (1.0 + <T>::EPSILON as f64), cls)); angs.push((c0 * (1.0 - <T>::EPSILON as f64), cls)); }
+            for &j in &js { for d in [1.0, -1.0] { angs.push((c0 + d * 2f64.powi(-j), cls)); } }
+        }
+    }
+    for j in $tiny { angs.push((2f64.powi(-j), "angle-below-epsilon")); angs.push((-(2f64.powi(-j)), "angle-below-epsilon")); }
+    { let mut seen = std::collections::BTreeSet::new(); angs.retain(|(a, _)| seen.insert(f(*a).d().to_bits())); }
+    let ax2: Vec<[f64; 3]> = vec![[1.0, 0.0, 0.0], [0.0, -1.0, 0.0], [0.0, 0.0, 2.0], [0.0, 3.0, 4.0], [-4.0, 0.0, 3.0], [1.0, 2.0, 2.0], [2.0, -3.0, 6.0], [1.0, 1.0, 1.0], [-1e-4, 3e-5, 1.0], [0.3, -0.7, 0.2]];
+    let vs2: [[f64; 2]; 6] = [[1.0, 0.0], [0.0, 1.0], [3.0, -4.0], [-0.5, 100.0], [-7.25, -1.0], [0.0, 0.0]];
+    s.meta("ladder_angles", json!(angs.len())); s.meta("ladder_axes", json!(ax2.len()));
+    let (d2, d3, d4) = ([2.0f64, -3.0], [2.0f64, -3.0, 0.5], [2.0f64, -3.0, 0.5, 1.0]);
+    for &(an, cls) in &angs {
+        let af = f(an); let ang64 = af.d(); let (c, sn) = (ang64.cos(), ang64.sin());
+        s.class(cls);
+        for (xi, ax) in ax2.iter().enumerate() {
+            let axt = [f(ax[0]), f(ax[1]), f(ax[2])];
+            let k = unitf(&[axt[0].d(), axt[1].d(), axt[2].d()]);
+            let inp = || json!({"angle": ang64, "axis": ax});
+            fs_3d::<T, 3, rm::Mat3<T>>(s, af, c, sn, axt, &k, &inp); fs_3d::<T, 3, cm::Mat3<T>>(s, af, c, sn, axt, &k, &inp);
+            fs_3d::<T, 4, rm::Mat4<T>>(s, af, c, sn, axt, &k, &inp); fs_3d::<T, 4, cm::Mat4<T>>(s, af, c, sn, axt, &k, &inp);
+            fquat_rel::<T>(s, "Quaternion::rotation_3d", dq(Quaternion::<T>::rotation_3d(af, v3(&axt))), ang64 / 2.0, &k, &inp);
+            // chained / in-place on the identity quaternion (struct literal): the product with (0,0,0,1) is exact
+            let idq: Quaternion<T> = Quaternion { x: f(0.0), y: f(0.0), z: f(0.0), w: f(1.0) };
+            let mut ip = idq; <Quaternion<T> as FQ2<T>>::q_rotate3d(&mut ip, af, axt);
+            fquat_rel::<T>(s, "Quaternion::rotated_3d(self: identity)", dq(<Quaternion<T> as FQ2<T>>::q_rotated3d(idq, af, axt)), ang64 / 2.0, &k, &inp);
+            fquat_rel::<T>(s, "Quaternion::rotate_3d(self: identity)", dq(ip), ang64 / 2.0, &k, &inp);
+            if xi % 3 == 1 {
+                fs_xyz::<T, 3, rm::Mat3<T>>(s, af, c, sn, axt, &k, &d3, &inp); fs_xyz::<T, 3, cm::Mat3<T>>(s, af, c, sn, axt, &k, &d3, &inp);
+                fs_xyz::<T, 4, rm::Mat4<T>>(s, af, c, sn, axt, &k, &d4, &inp); fs_xyz::<T, 4, cm::Mat4<T>>(s, af, c, sn, axt, &k, &d4, &inp);
+            }
+        }
+        let inp = || json!({"angle": ang64});
+        for i in 0..3 {
+            let mut e = [0.0; 3]; e[i] = 1.0;
+            fquat_rel::<T>(s, &format!("Quaternion::rotation_{}", XYZ[i]), dq(<Quaternion<T> as FQ2<T>>::q_axis(i, af)), ang64 / 2.0, &e, &inp);
+            let idq: Quaternion<T> = Quaternion { x: f(0.0), y: f(0.0), z: f(0.0), w: f(1.0) };
+            let mut ip = idq; <Quaternion<T> as FQ2<T>>::q_rotate(&mut ip, i, af);
+            fquat_rel::<T>(s, &format!("Quaternion::rotated_{}(self: identity)", XYZ[i]), dq(<Quaternion<T> as FQ2<T>>::q_rotated(idq, i, af)), ang64 / 2.0, &e, &inp);
+            fquat_rel::<T>(s, &format!("Quaternion::rotate_{}(self: identity)", XYZ[i]), dq(ip), ang64 / 2.0, &e, &inp);
+        }
+        // Mat2: builder, chained and in-place on a diagonal self
+        let ez = [0.0, 0.0, 1.0];
+        for lay in 0..2 {
+            let dm: A<T, 2> = [[f(d2[0]), f(0.0)], [f(0.0), f(d2[1])]];
+            let (nm, g, ret, ip) = if lay == 0 { let m = rm::Mat2::<T>::build(&dm); let mut ip = m; ip.rotate_z(af); ("Mat2<row>", rm::Mat2::<T>::rotation_z(af).decode(), m.rotated_z(af).decode(), ip.decode()) }
+                                   else { let m = cm::Mat2::<T>::build(&dm); let mut ip = m; ip.rotate_z(af); ("Mat2<col>", cm::Mat2::<T>::rotation_z(af).decode(), m.rotated_z(af).decode(), ip.decode()) };
+            fstruct::<T, 2>(s, &format!("{}::rotation_z", nm), &g, &ez, c, sn, &[1.0, 1.0], &inp);
+            fstruct::<T, 2>(s, &format!("{}::rotated_z(self: diagonal)", nm), &ret, &ez, c, sn, &d2, &inp);
+            fstruct::<T, 2>(s, &format!("{}::rotate_z(self: diagonal)", nm), &ip, &ez, c, sn, &d2, &inp);
+        }
+        for v in &vs2 {
+            let vv = Vec2 { x: f(v[0]), y: f(v[1]) }; let r = vv.rotated_z(af); let mut ip = vv; ip.rotate_z(af);
+            let inp = || json!({"angle": ang64, "v": v});
+            fvec2::<T>(s, "Vec2::rotated_z", [r.x, r.y], v, c, sn, &inp);
+            fvec2::<T>(s, "Vec2::rotate_z", [ip.x, ip.y], v, c, sn, &inp);
+        }
+    }
+    // ---- (f) nearly-unit axes: |axis| = 1 +- 2^-j ------------------------------------------------------
+    let units: Vec<[f64; 3]> = vec![[1.0, 0.0, 0.0], [0.0, 0.0, -1.0], [0.6, 0.8, 0.0], [1.0 / 3.0, 2.0 / 3.0, 2.0 / 3.0], [2.0 / 7.0, -3.0 / 7.0, 6.0 / 7.0], [-4.0 / 9.0, 4.0 / 9.0, 7.0 / 9.0]];
+    let djs: Vec<i32> = if th { (2..=$jmax).collect() } else { [3, 8, 12, 16, 20, 22, 24, 28, 32, 36, 40, 44, 48, 51].iter().copied().filter(|j| *j <= $jmax).collect() };
+    let angs_f: Vec<f64> = if th { vec![0.5, -2.0, 3.0, pi / 2.0, -pi, 9.313225746154785e-10, 4.0, -0.01] } else { vec![0.5, -2.0, 3.0, pi / 2.0, 9.313225746154785e-10] };
+    s.meta("nearly_unit_exponents", json!(djs)); s.meta("nearly_unit_directions", json!(units.len()));
+    for u in &units { for &j in &djs { for sg in [1.0, -1.0] {
+        let fac = 1.0 + sg * 2f64.powi(-j);
+        let axf = [f(u[0] * fac), f(u[1] * fac), f(u[2] * fac)];
+        let k = unitf(&[axf[0].d(), axf[1].d(), axf[2].d()]);
+        for &an in &angs_f {
+            let af = f(an); let ang64 = af.d(); let (c, sn) = (ang64.cos(), ang64.sin());
+            s.class("axis-nearly-unit");
+            let inp = || json!({"angle": ang64, "direction": u, "length": format!("1 {} 2^-{}", if sg > 0.0 { "+" } else { "-" }, j), "axis_given": axf.iter().map(|v| v.d()).collect::<Vec<_>>()});
+            fs_3d::<T, 3, rm::Mat3<T>>(s, af, c, sn, axf, &k, &inp); fs_3d::<T, 3, cm::Mat3<T>>(s, af, c, sn, axf, &k, &inp);
+            fs_3d::<T, 4, rm::Mat4<T>>(s, af, c, sn, axf, &k, &inp); fs_3d::<T, 4, cm::Mat4<T>>(s, af, c, sn, axf, &k, &inp);
+            fquat_rel::<T>(s, "Quaternion::rotation_3d", dq(Quaternion::<T>::rotation_3d(af, v3(&axf))), ang64 / 2.0, &k, &inp);
+        }
+    } } }
+    // nearly coordinate axes: one or two components 2^-j times the dominant one
+    let ncj: Vec<i32> = if th { (4..=$jmax + 8).step_by(2).collect() } else { [10, 20, 27, 30, 40, 53, 58].iter().copied().filter(|j| *j <= $jmax + 8).collect() };
+    for &j in &ncj { let t = 2f64.powi(-j); for ax in [[1.0, t, 0.0], [t, -1.0, t], [0.0, -t, 2.0], [-3.0 * t, 0.0, -1.0]] {
+        let axf = [f(ax[0]), f(ax[1]), f(ax[2])];
+        let k = unitf(&[axf[0].d(), axf[1].d(), axf[2].d()]);
+        for &an in &angs_f {
+            let af = f(an); let ang64 = af.d(); let (c, sn) = (ang64.cos(), ang64.sin());
+            s.class("axis-nearly-coordinate");
+            let inp = || json!({"angle": ang64, "axis": ax});
+            fs_3d::<T, 3, rm::Mat3<T>>(s, af, c, sn, axf, &k, &inp); fs_3d::<T, 3, cm::Mat3<T>>(s, af, c, sn, axf, &k, &inp);
+            fs_3d::<T, 4, rm::Mat4<T>>(s, af, c, sn, axf, &k, &inp); fs_3d::<T, 4, cm::Mat4<T>>(s, af, c, sn, axf, &k, &inp);
+            fquat_rel::<T>(s, "Quaternion::rotation_3d", dq(Quaternion::<T>::rotation_3d(af, v3(&axf))), ang64 / 2.0, &k, &inp);
+        }
+    } }
+    // ---- (a') axes whose squared length is just inside the normal range ---------------------------------
+    s.meta("range_limit_exponents", json!([$lim, -$lim]));
+    for e in [$lim, -$lim] { let sc = 2f64.powi(e);
+        for x in -2i32..=2 { for y in -2i32..=2 { for z in -2i32..=2 { let n2 = x * x + y * y + z * z; if n2 == 0 || n2 > 9 { continue; }
+            let ax = [x as f64, y as f64, z as f64];
+            let k = unitf(&ax);
+            let axf = [f(ax[0] * sc), f(ax[1] * sc), f(ax[2] * sc)];
+            for an in [0.5, -2.0, 3.0, pi] {
+                let af = f(an); let ang64 = af.d(); let (c, sn) = (ang64.cos(), ang64.sin());
+                s.class("axis-at-range-limit");
+                let inp = || json!({"angle": ang64, "axis_unscaled": ax, "axis_scale": format!("2^{}", e)});
+                fs_3d::<T, 3, rm::Mat3<T>>(s, af, c, sn, axf, &k, &inp); fs_3d::<T, 3, cm::Mat3<T>>(s, af, c, sn, axf, &k, &inp);
+                fs_3d::<T, 4, rm::Mat4<T>>(s, af, c, sn, axf, &k, &inp); fs_3d::<T, 4, cm::Mat4<T>>(s, af, c, sn, axf, &k, &inp);
+                fquat_rel::<T>(s, "Quaternion::rotation_3d", dq(Quaternion::<T>::rotation_3d(af, v3(&axf))), ang64 / 2.0, &k, &inp);
+            }
+        } } }
+    }
+    // ---- (g) chained / in-place forms on further self states --------------------------------------------
+    let m4s: [(A<f64, 4>, &str); 3] = [
+        ([[1.0, 2.0, -3.0, 4.0], [0.5, -4.0, 6.0, 8.0], [7.0, 8.0, 10.25, -11.0], [2.0, 3.0, 5.0, 1.0]], "self-m33=1-not-affine"),
+        ([[1.0, 2.0, -3.0, 4.0], [0.5, -4.0, 6.0, 8.0], [7.0, 8.0, 10.25, -11.0], [0.0, 0.0, 0.0, 1.0]], "self-affine-sheared"),
+        ([[1.0, 2.0, -3.0, 0.0], [0.5, -4.0, 6.0, 0.0], [7.0, 8.0, 10.25, 0.0], [4.0, 8.0, -11.0, 1.0]], "self-last-column-e_w")];
+    let m3s: [(A<f64, 3>, &str); 2] = [([[1.0, 2.0, -3.0], [0.5, -4.0, 6.0], [7.0, 8.0, 1.0]], "self-m22=1"), ([[1.0, 2.0, -3.0], [0.5, -4.0, 6.0], [0.0, 0.0, 1.0]], "self-2d-affine")];
+    let ch_axes: [[f64; 3]; 3] = [[0.0, 0.0, 1.0], [1.0, 2.0, 2.0], [0.3, -0.7, 0.2]];
+    for an in [0.5, -2.0, 3.0, pi, 9.313225746154785e-10] {
+        let af = f(an); let ang64 = af.d(); let (c, sn) = (ang64.cos(), ang64.sin());
+        for ax in &ch_axes {
+            let axt = [f(ax[0]), f(ax[1]), f(ax[2])];
+            let k = unitf(&[axt[0].d(), axt[1].d(), axt[2].d()]);
+            for (m, cls) in &m4s { s.class(cls); fext_chain::<T, 4, rm::Mat4<T>>(s, m, af, c, sn, axt, &k, ang64); fext_chain::<T, 4, cm::Mat4<T>>(s, m, af, c, sn, axt, &k, ang64); }
+            for (m, cls) in &m3s { s.class(cls); fext_chain::<T, 3, rm::Mat3<T>>(s, m, af, c, sn, axt, &k, ang64); fext_chain::<T, 3, cm::Mat3<T>>(s, m, af, c, sn, axt, &k, ang64); }
+        }
+    }
+    // quaternion self states: in-place == by-value (within the rounding of one Hamilton product) and the result is the
+    // Hamilton product rotation * self as a point of projective space (both normalised in f64, common sign)
+    let q0s: [([f64; 4], &str); 7] = [([1.0, -1.0, 1.0, 1.0], "quaternion-self-w=1-non-unit"), ([2.0, 4.0, 4.0, 1.0], "quaternion-self-w=1-non-unit"), ([0.6, 0.0, 0.8, 0.0], "quaternion-self-w=0"), ([1.0, 0.0, 0.0, 0.0], "quaternion-self-w=0"),
+        ([0.0, 0.0, 0.0, 2.0], "quaternion-self-non-unit"), ([-0.5, 0.5, 0.5, -0.5], "quaternion-self-unit"), ([0.0, 0.0, 0.0, -1.0], "quaternion-self-unit")];
+    for (q0, cls) in &q0s {
+        let q0t: Quaternion<T> = Quaternion { x: f(q0[0]), y: f(q0[1]), z: f(q0[2]), w: f(q0[3]) };
+        let sum1: f64 = q0.iter().map(|v| v.abs()).sum();
+        for an in [0.5, -2.0, 3.0, pi, 4.0] {
+            let af = f(an); let ang64 = af.d(); let (sh, ch) = ((ang64 / 2.0).sin(), (ang64 / 2.0).cos());
+            for kind in 0..(3 + ch_axes.len()) {
+                let (axd, name) = if kind < 3 { let mut e = [0.0; 3]; e[kind] = 1.0; (e, XYZ[kind].to_string()) } else { (ch_axes[kind - 3], "3d".to_string()) };
+                let axt = [f(axd[0]), f(axd[1]), f(axd[2])];
+                let k = unitf(&[axt[0].d(), axt[1].d(), axt[2].d()]);
+                let mut ip = q0t;
+                let ret = if kind < 3 { <Quaternion<T> as FQ2<T>>::q_rotate(&mut ip, kind, af); <Quaternion<T> as FQ2<T>>::q_rotated(q0t, kind, af) } else { <Quaternion<T> as FQ2<T>>::q_rotate3d(&mut ip, af, axt); <Quaternion<T> as FQ2<T>>::q_rotated3d(q0t, af, axt) };
+                let (ret, ip) = (dq(ret), dq(ip));
+                let inp = || json!({"angle": ang64, "axis": axd, "self_xyzw": q0});
+                s.eval(true); s.class(cls);
+                // each field is a sum of four products of a rotation field (<= 1) with a field of self: both forms within 4 eps sum|self| of the exact value
+                if !(0..4).all(|i| (ip[i].d() - ret[i].d()).abs() <= 16.0 * (<T>::EPSILON as f64) * sum1) { s.violation(&format!("Quaternion::rotate_{}<{}>", name, <T as Fl>::NAME), "in-place-form-differs-from-by-value-form", json!({"input": inp(), "rotate": ip.iter().map(|v| v.d()).collect::<Vec<_>>(), "rotated": ret.iter().map(|v| v.d()).collect::<Vec<_>>()})); }
+                let hw = ham_f(&[k[0] * sh, k[1] * sh, k[2] * sh, ch], q0);
+                let nrm = |a: &[f64; 4]| { let n = a.iter().map(|v| v * v).sum::<f64>().sqrt(); [a[0] / n, a[1] / n, a[2] / n, a[3] / n] };
+                let (gn, hn) = (nrm(&[ret[0].d(), ret[1].d(), ret[2].d(), ret[3].d()]), nrm(&hw));
+                let im = (0..4).fold(0, |b, i| if hn[i].abs() > hn[b].abs() { i } else { b });
+                let sg = if (gn[im] < 0.0) != (hn[im] < 0.0) { -1.0 } else { 1.0 };
+                // fields of rotation * self: <= 3.25 eps (rotation field) + 2 eps (products, sums) relative to sum|self| <= 2 |self|; normalisation in f64 and the oracle's own rounding below that
+                if !(0..4).all(|i| (gn[i] - sg * hn[i]).abs() <= 64.0 * (<T>::EPSILON as f64)) { s.violation(&format!("Quaternion::rotated_{}<{}>", name, <T as Fl>::NAME), "not-the-hamilton-product-rotation*self-up-to-scale", json!({"input": inp(), "got_xyzw": ret.iter().map(|v| v.d()).collect::<Vec<_>>(), "want_xyzw_up_to_scale": hw})); }
+            }
+        }
+    }
+}} }
+
 fn main() {
     let rep = Report::start("C04", "exploration");
     let th = rep.thorough();
@@ -1168,6 +1497,143 @@ fn main() {
     let rule_fx = "(a) extreme axis lengths: integer axes of {-2..2}^3 minus 0 (thorough {-3..3}^3) and six irregular axes (components of very different size, non-dyadic components; the oracle normalises the T-rounded components in f64) scaled by 2^e, e in {+-40, 13, -31} for f32 and {+-400, 133, -271} for f64 (thorough also +-60 / +-500 and +-1), x 16 angles (thorough 102): rotation_3d of Mat3/Mat4 (both layouts), Mat::from(Quaternion::rotation_3d) and the fields of Quaternion::rotation_3d (up to a common sign) vs Rodrigues / (k sin(theta/2), cos(theta/2)) of the UNSCALED axis computed in f64 (a power-of-two factor is exact in every operation of the normalisation, and the squared length stays inside the normal range, so the result must not depend on it; a guard against short axes or a product of squared lengths breaks here); (b) special and large angles: +-0, +-pi, +-pi/2, 2pi, +-2^-30, 2^-60, +-1e3, 12345.678, -54321, +-1e6, 2^20+0.5, 1e8 (thorough: 800 more up to 1e7 and 2^-1..2^-59) plus 24 (thorough 256) ordinary angles: rotation_x/y/z, Mat2::rotation_z, Vec2 rotated_z/rotate_z (incl. v = 0), Quaternion::rotation_x/y/z fields and Mat3/Mat4::from of them, the chained and in-place forms rotated_*/rotate_* of Mat2/Mat3/Mat4 (both layouts; self = full non-symmetric matrix) and Quaternion (self = (1,-1,1,1)/2) over every 7th grid axis and the irregular ones vs the f64 reference product (bound per column: 256 eps * sum |self| of the column), and the scalar-broadcast axis form rotation_3d(theta, 2.5) = axis (1,1,1); (c) Vec2 scaled by 2^+-40 and 2^+-90 (f32) / 2^+-400 and 2^+-900 (f64): rotation is linear, result/scale must match within 256 eps (|x|+|y|); the oracle uses f64 sin/cos of exactly the angle the code received; non-trivial: all";
     rep.section("float tier f64: extreme axis lengths, special and large angles, chained/in-place and quaternion x/y/z forms, Vec2 at extreme magnitudes", rule_fx, true, false, |s| float_ext!(s, f64, 400, 133, 500, 900));
     rep.section("float tier f32: extreme axis lengths, special and large angles, chained/in-place and quaternion x/y/z forms, Vec2 at extreme magnitudes", rule_fx, true, false, |s| float_ext!(s, f32, 40, 13, 60, 90));
+
+    // ==== additions of the second audit round ===========================================================
+    // ---- 15. exact tier: angles next to 0, a quarter turn, a half turn ---------------------------------
+    rep.section("angles next to the special ones (exact): theta = +-2^-30, +-2^-27, +-2^-22, pi/2 +- 2^-30, pi +- 2^-30, pi +- 2^-19",
+        "angle tokens of rational circle points with parameter t = 2^-31, 2^-28 (theta = 4 atan t/2: about 2^-30 and 2^-27: below the square root of the element type's epsilon 2^-52, so a guard of the kind `angle^2 < eps`, `1 - cos < eps`, `|sin| < sqrt eps` misfires), t = 2^31 (pi - 2^-30), t = 1 +- 2^-30 (pi/2 +- 2^-30), both signs, and the even multiples 2*arg(z) for t = 2^-24 (theta about 2^-22) and t = 1 +- 2^-20 (theta = pi +- 2^-19) which the half-angle quaternion code accepts: rotation_x/y/z/3d of Mat3/Mat4 (both layouts) == Rodrigues, rotated_* on a full integer self == reference product, rotate_* == rotated_*, Mat2 likewise, Vec2 rotated_z / rotate_z == (c x - s y, s x + c y); for the even multiples also Quaternion::rotation_x/y/z/3d fields == +-(axis sin(theta/2), cos(theta/2)), rotated_*/rotate_* on a unit quaternion == +-Hamilton product, Mat3/Mat4::from(Quaternion::rotation_3d) == Rodrigues; axes: e_i and three rational unit vectors (one of them scaled by 3); non-trivial: all (no angle is a multiple of 2 pi)", true, false, |s| {
+        s.require_classes(&["theta-tiny", "theta-next-to-quarter-turn", "theta-next-to-half-turn", "quaternion-theta-tiny", "quaternion-theta-next-to-half-turn"]);
+        let p = |k: u32| 1i128 << k;
+        let odd_near: Vec<(Ang, &'static str)> = vec![
+            (ang(1, p(31), 1), "theta-tiny"), (ang(1, p(31), -1), "theta-tiny"), (ang(1, p(28), 1), "theta-tiny"), (ang(-1, p(28), 1), "theta-tiny"),
+            (ang(p(31), 1, 1), "theta-next-to-half-turn"), (ang(p(31), 1, -1), "theta-next-to-half-turn"), (ang(p(28), 1, 1), "theta-next-to-half-turn"),
+            (ang(p(30) + 1, p(30), 1), "theta-next-to-quarter-turn"), (ang(p(30) - 1, p(30), 1), "theta-next-to-quarter-turn"), (ang(p(30) + 1, p(30), -1), "theta-next-to-quarter-turn"), (ang(p(30) - 1, p(30), -1), "theta-next-to-quarter-turn")];
+        let even_near: Vec<(Ang, &'static str)> = vec![(ang(1, p(24), 2), "theta-tiny"), (ang(1, p(24), -2), "theta-tiny"), (ang(p(20) + 1, p(20), 2), "theta-next-to-half-turn"), (ang(p(20) - 1, p(20), 2), "theta-next-to-half-turn"), (ang(p(20) - 1, p(20), -2), "theta-next-to-half-turn")];
+        let near_axes: Vec<Axis> = vec![Axis { unit: [q(2, 7), q(3, 7), q(6, 7)], lam: qi(1) }, Axis { unit: [q(1, 3), q(-2, 3), q(2, 3)], lam: qi(3) }, Axis { unit: [qi(0), q(-3, 5), q(4, 5)], lam: qi(1) }, Axis { unit: [qi(0), qi(-1), qi(0)], lam: qi(1) }];
+        // coordinate axes only for the largest numbers (t = 2^+-31 leaves no room for the denominators of a general axis)
+        let small_axes: Vec<Axis> = vec![Axis { unit: [qi(0), qi(-1), qi(0)], lam: qi(2) }];
+        let (big, rest): (Vec<(Ang, &'static str)>, Vec<(Ang, &'static str)>) = odd_near.iter().copied().partition(|(a, _)| a.tn.max(a.td) >= p(30));
+        let i2: A<X, 2> = [[qi(1), qi(2)], [qi(3), qi(5)]];
+        for (angs, axs) in [(&big, &small_axes), (&rest, &near_axes), (&even_near, &near_axes)] {
+            sec_near::<3, rm::Mat3<X>>(s, angs, axs, &i3); sec_near::<3, cm::Mat3<X>>(s, angs, axs, &i3);
+            sec_near::<4, rm::Mat4<X>>(s, angs, axs, &i4); sec_near::<4, cm::Mat4<X>>(s, angs, axs, &i4);
+            sec_near2::<rm::Mat2<X>>(s, angs, &i2); sec_near2::<cm::Mat2<X>>(s, angs, &i2);
+            for &(a, cls) in angs.iter() { let (c, sn) = a.cs(); let t = a.tok(); for v in [[qi(1), qi(0)], [qi(0), qi(1)], [qi(3), qi(-4)], [q(1, 2), qi(7)]] {
+                let want = [c * v[0] - sn * v[1], sn * v[0] + c * v[1]];
+                let inp = || json!({"v": jxs(&v), "angle": near_json(a)});
+                s.eval(true); s.class(cls);
+                if let Some((g, ip)) = s.call("Vec2::rotated_z", inp, || { let vv = Vec2 { x: v[0], y: v[1] }; let mut ip = vv; ip.rotate_z(t); (dv2(&vv.rotated_z(t)), dv2(&ip)) }) {
+                    if g != want { s.violation_w("Vec2::rotated_z", "not-ccw-rotation-next-to-a-special-angle", json!({"input": inp(), "got": jxs(&g), "want": jxs(&want)}), 1); }
+                    if ip != g { s.violation_w("Vec2::rotate_z", "in-place-form-differs-next-to-a-special-angle", json!({"input": inp(), "rotate_z": jxs(&ip), "rotated_z": jxs(&g)}), 1); }
+                }
+            } }
+        }
+        // quaternions (even multiples)
+        for &(a, cls) in &even_near { let (c, sn) = a.cs(); let t = a.tok(); for kind in 0..(3 + near_axes.len()) {
+            let (unit, given, name) = if kind < 3 { (e3(kind), e3(kind), XYZ[kind].to_string()) } else { (near_axes[kind - 3].unit, near_axes[kind - 3].given(), "3d".to_string()) };
+            let rq = ref_quat(&unit, a);
+            let q0 = &q0s[kind % 3];
+            let hw = ham(&rq, q0);
+            let want_m = rodrigues(&unit, c, sn);
+            let inp = || json!({"angle": near_json(a), "axis": jxs(&given), "self_xyzw": jxs(q0)});
+            s.eval(true); s.class(if cls == "theta-tiny" { "quaternion-theta-tiny" } else { "quaternion-theta-next-to-half-turn" });
+            let site = format!("Quaternion::rotation_{}", name);
+            let r = s.call(&site, inp, || { let real_q = mkq(q0); let mut ip = real_q; match kind { 0 => { ip.rotate_x(t); (dq(Quaternion::rotation_x(t)), dq(real_q.rotated_x(t)), dq(ip)) } 1 => { ip.rotate_y(t); (dq(Quaternion::rotation_y(t)), dq(real_q.rotated_y(t)), dq(ip)) } 2 => { ip.rotate_z(t); (dq(Quaternion::rotation_z(t)), dq(real_q.rotated_z(t)), dq(ip)) } _ => { ip.rotate_3d(t, v3(&given)); (dq(Quaternion::rotation_3d(t, v3(&given))), dq(real_q.rotated_3d(t, v3(&given))), dq(ip)) } } });
+            if let Some((g, ret, ip)) = r {
+                if g != rq && g != negq(&rq) { s.violation_w(&site, "not-half-angle-axis-form-next-to-a-special-angle", json!({"input": inp(), "got_xyzw": jxs(&g), "want_xyzw": jxs(&rq)}), 1); }
+                if ret != hw && ret != negq(&hw) { s.violation_w(&format!("Quaternion::rotated_{}", name), "not-the-hamilton-product-rotation*self-next-to-a-special-angle", json!({"input": inp(), "got_xyzw": jxs(&ret), "want_xyzw": jxs(&hw)}), 1); }
+                if ip != ret { s.violation_w(&format!("Quaternion::rotate_{}", name), "in-place-form-differs-next-to-a-special-angle", json!({"input": inp(), "rotate": jxs(&ip), "rotated": jxs(&ret)}), 1); }
+            }
+            if let Some((m3r, m3c, m4r, m4c)) = s.call("Mat::from(Quaternion::rotation_3d)", inp, || { let qq = Quaternion::rotation_3d(t, v3(&given)); (rm::Mat3::<X>::from(qq).decode(), cm::Mat3::<X>::from(qq).decode(), rm::Mat4::<X>::from(qq).decode(), cm::Mat4::<X>::from(qq).decode()) }) {
+                let w4 = embed::<X, 3, 4>(&want_m);
+                if m3r != want_m || m3c != want_m || m4r != w4 || m4c != w4 { s.violation_w("Mat::from(Quaternion::rotation_3d)", "not-rodrigues-next-to-a-special-angle", json!({"input": inp(), "Mat3<row>": jmat(&m3r), "Mat3<col>": jmat(&m3c), "Mat4<row>": jmat(&m4r), "Mat4<col>": jmat(&m4c), "want": jmat(&want_m)}), 1); }
+            }
+        } }
+        s.meta("odd_multiples", json!(odd_near.len())); s.meta("even_multiples", json!(even_near.len()));
+    });
+
+    // ---- 16. exact tier: nearly-unit axes ---------------------------------------------------------------
+    rep.section("nearly-unit and nearly-coordinate axes (exact): |axis| = 1 +- 2^-55, 1 +- 2^-30, 1 +- 2^-12; one component about 2^-26",
+        &format!("unit axes +-e_i and four rational unit vectors scaled by lambda in {{1 + 2^-55, 1 - 2^-55, 1 + 2^-30, 1 - 2^-30, 1 + 2^-12, 1 - 2^-12}} (|axis|^2 - 1 about 2^-54: below the element type's epsilon 2^-52, so an `already normalised` shortcut keyed on epsilon, on is_normalized() or on a fixed small threshold skips the normalisation and the result stops being a rotation) x eight even-multiple angles: decoded rotation_3d of Mat3/Mat4 (both layouts) == Rodrigues(unit axis), rotated_3d on a full integer self == reference product, rotate_3d == rotated_3d, Mat::from(Quaternion::rotation_3d) == Rodrigues, Quaternion::rotation_3d fields == +-(unit sin(theta/2), cos(theta/2)); nearly coordinate axes: the rational unit vectors (2m, m^2-1, 0)/(m^2+1), m = 2^27 and 2^12, in three placements with signs, unit and scaled by 3 (one component about 2^-26 resp. 2^-11: a `single non-zero lane` shortcut with a threshold, or a guard comparing a component with sqrt(epsilon), takes the wrong axis) x five angles, same calls; non-trivial: R != I.  {}", bezout), true, false, |s| {
+        s.require_classes(&["lambda-1+-2^-55", "lambda-1+-2^-30", "lambda-1+-2^-12", "axis-nearly-coordinate"]);
+        let p2 = |k: u32| qi(1i128 << k);
+        let lams: Vec<(X, &'static str)> = vec![(qi(1) + qi(1) / p2(55), "lambda-1+-2^-55"), (qi(1) - qi(1) / p2(55), "lambda-1+-2^-55"), (qi(1) + qi(1) / p2(30), "lambda-1+-2^-30"), (qi(1) - qi(1) / p2(30), "lambda-1+-2^-30"), (qi(1) + qi(1) / p2(12), "lambda-1+-2^-12"), (qi(1) - qi(1) / p2(12), "lambda-1+-2^-12")];
+        let mut units: Vec<Axis> = axes.iter().filter(|a| a.coordinate() && a.lam == qi(1)).copied().collect();
+        for u in [[q(2, 7), q(3, 7), q(6, 7)], [q(1, 3), q(-2, 3), q(2, 3)], [qi(0), q(-3, 5), q(4, 5)], [q(-4, 9), q(-4, 9), q(7, 9)]] { units.push(Axis { unit: u, lam: qi(1) }); }
+        let angs: Vec<Ang> = vec![ang(1, 3, 2), ang(1, 2, 2), ang(1, 1, 2), ang(2, 1, 2), ang(5, 1, 2), ang(1, 2, -2), ang(1, 5, 4), ang(0, 1, 2)];
+        sec_nearly_unit::<3, rm::Mat3<X>>(s, &units, &lams, &angs, &i3); sec_nearly_unit::<3, cm::Mat3<X>>(s, &units, &lams, &angs, &i3);
+        sec_nearly_unit::<4, rm::Mat4<X>>(s, &units, &lams, &angs, &i4); sec_nearly_unit::<4, cm::Mat4<X>>(s, &units, &lams, &angs, &i4);
+        for ax0 in &units { for &(lam, cls) in &lams { let ax = Axis { unit: ax0.unit, lam }; let given = ax.given(); for &a in &angs {
+            let want_q = ref_quat(&ax.unit, a);
+            let inp = || json!({"angle": a.json(), "axis": ax.json()});
+            s.eval(!a.trivial()); s.class(cls);
+            if let Some(g) = s.call("Quaternion::rotation_3d", inp, || dq(Quaternion::rotation_3d(a.tok(), v3(&given)))) {
+                if g != want_q && g != negq(&want_q) { s.violation_w("Quaternion::rotation_3d", "not-half-angle-axis-form-at-nearly-unit-axis-length", json!({"input": inp(), "got_xyzw": jxs(&g), "want_xyzw": jxs(&want_q)}), a.weight() + ax0.weight()); }
+            }
+        } } }
+        // nearly coordinate axes: Pythagorean (2mn, m^2-n^2, 0)/(m^2+n^2) with m = 2^27 (one component about 2^-26, just below sqrt(epsilon)) and m = 2^12
+        let mut nc: Vec<Axis> = Vec::new();
+        for mm in [1i128 << 27, 1i128 << 12] { let (a, b, c) = (2 * mm, mm * mm - 1, mm * mm + 1);
+            nc.push(Axis { unit: [q(a, c), q(b, c), qi(0)], lam: qi(1) }); nc.push(Axis { unit: [qi(0), q(-a, c), q(-b, c)], lam: qi(1) }); nc.push(Axis { unit: [q(-b, c), qi(0), q(a, c)], lam: qi(1) }); }
+        let nc_lams = [(qi(1), "axis-nearly-coordinate"), (qi(3), "axis-nearly-coordinate")];
+        let nc_angs: Vec<Ang> = vec![ang(1, 3, 2), ang(1, 2, 2), ang(1, 1, 2), ang(2, 1, 2), ang(1, 2, -2)];
+        sec_nearly_unit::<3, rm::Mat3<X>>(s, &nc, &nc_lams, &nc_angs, &i3); sec_nearly_unit::<3, cm::Mat3<X>>(s, &nc, &nc_lams, &nc_angs, &i3);
+        sec_nearly_unit::<4, rm::Mat4<X>>(s, &nc, &nc_lams, &nc_angs, &i4); sec_nearly_unit::<4, cm::Mat4<X>>(s, &nc, &nc_lams, &nc_angs, &i4);
+        alphabet_meta(s, &angs, units.len());
+    });
+
+    // ---- 17. exact tier: further self states of the chained / in-place forms ----------------------------
+    rep.section("chained and in-place forms on further self states: projective, transposed-affine, sheared-affine, diagonal, singular, zero matrices; non-unit, w = 0, w = 1 quaternions",
+        &format!("self: Mat4 with m33 = 1 but a bottom row (2,3,5,1) (a fast path keyed on the homogeneous entry alone goes wrong), with the last COLUMN (0,0,0,1) and a full bottom row, affine with a sheared (non-orthogonal) linear part, bottom row (0,0,0,2), diag(2,3,5,1), a rank-1 matrix, the zero matrix, -identity; Mat3 and Mat2 analogues x six even-multiple angles x (x, y, z, 3d over five axes): decoded m.rotated_*(theta) == reference product Rodrigues * m, m.rotate_*(theta) == rotated_* (same oracle and classes as the chained section); Quaternion self: unit with w = 0, the pure quaternions e_x, -identity, w < 0; NON-unit: 2 x a unit quaternion, (1,-1,1,1) and (2,4,4,1) (w = 1 without being the identity), (0,0,0,2), (0,3,4,0): q.rotate_*(theta) == q.rotated_*(theta) field by field (twin differential on every state) and q.rotated_*(theta) is the Hamilton product rotation * q as a point of projective space (proportional with a non-zero factor: a quaternion and its multiples are the same rotation; for unit self the fields are also == +-Hamilton product); non-trivial: the reference result differs from self.  {}", bezout), true, false, |s| {
+        s.require_classes(&["order-matters", "commuting", "quaternion-self-unit", "quaternion-self-non-unit"]);
+        let z = qi(0);
+        let p4: A<X, 4> = [[qi(1), qi(2), qi(3), qi(4)], [qi(5), qi(6), qi(7), qi(8)], [qi(9), qi(10), qi(12), qi(11)], [qi(2), qi(3), qi(5), qi(1)]];
+        let t4: A<X, 4> = transpose(&affine4(&i3, &[qi(1), qi(-2), qi(3)]));
+        let a4: A<X, 4> = affine4(&i3, &[qi(4), qi(-8), qi(11)]);
+        let b4: A<X, 4> = { let mut m = a4; m[3][3] = qi(2); m };
+        let d4: A<X, 4> = [[qi(2), z, z, z], [z, qi(3), z, z], [z, z, qi(5), z], [z, z, z, qi(1)]];
+        let k4: A<X, 4> = { let (u, v) = ([qi(1), qi(-2), qi(3), qi(1)], [qi(2), qi(1), qi(-1), qi(3)]); let mut m = zeros::<X, 4>(); for i in 0..4 { for j in 0..4 { m[i][j] = u[i] * v[j]; } } m };
+        let n4: A<X, 4> = { let mut m = zeros::<X, 4>(); for i in 0..4 { m[i][i] = qi(-1); } m };
+        let m4x = [p4, t4, a4, b4, d4, k4, zeros::<X, 4>(), n4];
+        let p3: A<X, 3> = [[qi(1), qi(2), qi(3)], [qi(4), qi(5), qi(6)], [qi(2), qi(3), qi(1)]];
+        let a3: A<X, 3> = [[qi(1), qi(2), qi(3)], [qi(4), qi(5), qi(6)], [z, z, qi(1)]];
+        let t3: A<X, 3> = transpose(&a3);
+        let d3: A<X, 3> = [[qi(2), z, z], [z, qi(3), z], [z, z, qi(1)]];
+        let k3: A<X, 3> = { let (u, v) = ([qi(1), qi(-2), qi(3)], [qi(2), qi(1), qi(-1)]); let mut m = zeros::<X, 3>(); for i in 0..3 { for j in 0..3 { m[i][j] = u[i] * v[j]; } } m };
+        let m3x = [p3, a3, t3, d3, k3, zeros::<X, 3>()];
+        let m2x: [A<X, 2>; 5] = [[[qi(2), qi(3)], [qi(5), qi(1)]], [[qi(2), z], [z, qi(3)]], [[qi(1), qi(2)], [qi(2), qi(4)]], [[z, qi(1)], [qi(1), z]], zeros::<X, 2>()];
+        let angs: Vec<Ang> = vec![ang(1, 3, 2), ang(1, 2, 2), ang(1, 1, 2), ang(2, 1, 2), ang(1, 2, -2), ang(1, 5, 4)];
+        let ch_axes: Vec<Axis> = few_axes.iter().filter(|a| !a.coordinate()).step_by((few_axes.len() / 5).max(1)).take(5).copied().collect();
+        sec_chain::<3, rm::Mat3<X>>(s, &m3x, &ch_axes, &angs); sec_chain::<3, cm::Mat3<X>>(s, &m3x, &ch_axes, &angs);
+        sec_chain::<4, rm::Mat4<X>>(s, &m4x, &ch_axes, &angs); sec_chain::<4, cm::Mat4<X>>(s, &m4x, &ch_axes, &angs);
+        sec_chain2::<rm::Mat2<X>>(s, &m2x, &angs); sec_chain2::<cm::Mat2<X>>(s, &m2x, &angs);
+        // quaternion self states
+        let uq = [q(6, 35), q(9, 35), q(18, 35), q(4, 5)];
+        let qstates: Vec<([X; 4], bool)> = vec![([q(2, 7), q(3, 7), q(6, 7), z], true), ([qi(1), z, z, z], true), ([z, z, z, qi(-1)], true), ([q(-6, 35), q(9, 35), q(-18, 35), q(-4, 5)], true), ([z, q(3, 5), q(4, 5), z], true),
+            ([uq[0] * qi(2), uq[1] * qi(2), uq[2] * qi(2), uq[3] * qi(2)], false), ([qi(1), qi(-1), qi(1), qi(1)], false), ([qi(2), qi(4), qi(4), qi(1)], false), ([z, z, z, qi(2)], false), ([z, qi(3), qi(4), z], false), ([q(1, 2), z, z, qi(1)], false)];
+        for (q0, unit_self) in &qstates { let real_q = mkq(q0); for &a in &angs { let t = a.tok(); for kind in 0..(3 + ch_axes.len()) {
+            let (unit, given, name) = if kind < 3 { (e3(kind), e3(kind), XYZ[kind].to_string()) } else { (ch_axes[kind - 3].unit, ch_axes[kind - 3].given(), "3d".to_string()) };
+            let hw = ham(&ref_quat(&unit, a), q0);
+            let inp = || json!({"self_xyzw": jxs(q0), "angle": a.json(), "axis": jxs(&given)});
+            let w = a.weight();
+            s.eval(hw != *q0); s.class(if *unit_self { "quaternion-self-unit" } else { "quaternion-self-non-unit" });
+            let site = format!("Quaternion::rotated_{}", name);
+            let r = s.call(&site, inp, || { let mut ip = real_q; match kind { 0 => { ip.rotate_x(t); (dq(real_q.rotated_x(t)), dq(ip)) } 1 => { ip.rotate_y(t); (dq(real_q.rotated_y(t)), dq(ip)) } 2 => { ip.rotate_z(t); (dq(real_q.rotated_z(t)), dq(ip)) } _ => { ip.rotate_3d(t, v3(&given)); (dq(real_q.rotated_3d(t, v3(&given))), dq(ip)) } } });
+            if let Some((ret, ip)) = r {
+                if *unit_self { if ret != hw && ret != negq(&hw) { s.violation_w(&site, "not-the-hamilton-product-rotation*self", json!({"input": inp(), "got_xyzw": jxs(&ret), "want_xyzw": jxs(&hw)}), w); } }
+                else if !proportional(&ret, &hw) { s.violation_w(&site, "not-the-hamilton-product-rotation*self-up-to-scale", json!({"input": inp(), "got_xyzw": jxs(&ret), "want_xyzw_up_to_scale": jxs(&hw)}), w); }
+                if ip != ret { s.violation_w(&format!("Quaternion::rotate_{}", name), "in-place-form-differs", json!({"input": inp(), "rotate": jxs(&ip), "rotated": jxs(&ret)}), w); }
+                if !*unit_self && kind == 3 && s.wants_sample() { s.sample(json!({"call": site, "input": inp(), "real_output_xyzw": jxs(&ret)})); }
+            }
+        } } }
+        s.meta("mat4_states", json!(m4x.len())); s.meta("mat3_states", json!(m3x.len())); s.meta("mat2_states", json!(m2x.len())); s.meta("quaternion_states", json!(qstates.len())); s.meta("axes", json!(ch_axes.len()));
+        alphabet_meta(s, &angs, ch_axes.len());
+    });
+
+    // ---- 18./19. float tier: forward bounds entry by entry -----------------------------------------------
+    let rule_f2 = "(e) angle ladders c0 +- 2^-j next to c0 in {0, +-pi/2, +-pi, +-3pi/2, +-2pi} (c0 rounded to the type; j in {2,5,9,14,18,22,26,30,35,40,45,49,51} for f64, j <= 22 for f32; thorough every j), c0 itself and its two neighbours, and angles below epsilon (2^-53, 2^-60, 2^-80, 2^-100 for f64; 2^-24, 2^-30, 2^-40 for f32) x ten axes (coordinate, integer, components of very different size): every entry of rotation_3d, rotation_x/y/z, Mat2::rotation_z and of Mat3/Mat4::from(Quaternion::rotation_*) (both layouts) within 32 eps (|k_i k_j| + |k_m sin theta|) of the Rodrigues entry (diagonal: 32 eps; structurally zero / one entries exactly), the bound being derived from the formula (see KS); so the sine entries are checked RELATIVE to |sin theta| (a tiny-angle shortcut returning the identity is off by 100% there although far inside any absolute tolerance); the chained and in-place forms on a diagonal self diag(2,-3,.5,1) (every entry of the product is one product, the bound scales with |d_j|); Quaternion::rotation_3d/x/y/z fields and identity.rotated_*/rotate_* within 16 eps relative per field (cos(theta/2) is computed directly, so w is relative-accurate next to a half turn: a half angle through sin/(1+cos) is not); Vec2 rotated_z/rotate_z within 8 eps (|c x| + |s y|) per component; (f) nearly-unit axes: six directions scaled by 1 +- 2^-j, j in {3,8,...,48,51} (f32: j <= 22; thorough every j) x five angles: same bounds against the f64-normalised axis (an `already normalised` shortcut with any threshold above a few hundred eps shows); nearly coordinate axes (1, t, 0), (t, -1, t), (0, -t, 2), (-3t, 0, -1) with t = 2^-j, j in {10, 20, 27, 30, 40, 53, 58} (f32: j <= 30): same bounds (the small entries k_i k_j (1-cos) and k_m sin are checked relative to themselves, so dropping a small component shows); (a') axes of {-2..2}^3 with squared length <= 9 scaled by 2^+-510 (f64) / 2^+-62 (f32): the squared length is still a normal number, the result must not change; (g) chained / in-place forms on a Mat4 with m33 = 1 and bottom row (2,3,5,1), a sheared affine Mat4, a Mat4 with last column e_w, Mat3 analogues (bound per column as in the chained float section); Quaternion self states (non-unit with w = 1, w = 0, (0,0,0,2), unit with w < 0, -identity): rotate_* within 16 eps sum|self| of rotated_*, and rotated_* normalised == Hamilton product normalised (f64) within 64 eps; non-trivial: all";
+    rep.section("float tier f64: entrywise forward bounds next to special angles, below epsilon, nearly-unit axes, range-limit axes, further self states", rule_f2, true, false, |s| float_ext2!(s, f64, 51, [53, 60, 80, 100], 510));
+    rep.section("float tier f32: entrywise forward bounds next to special angles, below epsilon, nearly-unit axes, range-limit axes, further self states", rule_f2, true, false, |s| float_ext2!(s, f32, 22, [24, 30, 40], 62));
 
     std::process::exit(rep.finish());
 }
